@@ -381,7 +381,7 @@ pub fn write_evidence(cfg: &RunCfg, agg: &Agg, distinct: usize, scheds: usize, s
             "explanation": format!("seeded search, not exhaustive; counts are lower bounds if a worker died between checkpoints.{}", zero_probe_note),
         },
         "assumptions": [
-            "release-profile semantics (overflow-checks and debug-assertions off, as in the repository's release profile)",
+            "optimised build with overflow checks ON (an arithmetic overflow on hostile input is a panic in the repository's dev/test profile and is reported as one); debug-assertions off",
             "decoders run on a 2 MiB stack",
             "single-task executor: a deferred wake is indistinguishable from an immediate one for the future under test",
         ],
